@@ -500,6 +500,9 @@ impl Harness for C13 {
         let jobs = {
             let mut j: Vec<Job> = jobs;
             j.insert(0, Job::new("builders", json!({"kind": "builders"})));
+            for i in 0..mc_sc::entry::n_parts("C13") {
+                j.insert(1 + i, Job::new(format!("entry-{}", i), json!({"kind": "entry", "part": i})));
+            }
             j
         };
         Plan {
@@ -509,10 +512,12 @@ impl Harness for C13 {
             floors: {
                 let mut f = floors(t);
                 f.push(("builder_chains", 5));
+                f.push(("entry_cases", 1000));
                 f
             },
             bounds: json!({
                 "builders": mc_sc::builders::BOUNDS,
+                "entry_paths": mc_sc::entry::BOUNDS,
                 "lattices_exhaustive": lattice_bounds,
                 "lattice_multisets_exhaustive": multiset_bounds,
                 "structured_data_sets": structured,
@@ -523,6 +528,9 @@ impl Harness for C13 {
     }
 
     fn run(&self, job: &Job) {
+        if job.kind() == "entry" {
+            return mc_sc::entry::run_part("C13", job.u("part"));
+        }
         if job.kind() == "builders" {
             return mc_sc::builders::run("C13");
         }
